@@ -92,9 +92,12 @@ class Ocp(Stage):
                 self._var_augmented = augmented
                 augmented._placeholders = self._placeholders
                 
-                return self._augmented._transcribed
+                augmented._transcribe()
+                return augmented
         else:
-            self._transcribe()
+            # A transcribed copy: only the latest copy of an up-to-date transcription is valid
+            if not self.is_transcribed or self._original._var_augmented is not self:
+                raise Exception("The Ocp was modified after this transcription (or the solution obtained from it) was created. Solve again.")
             return self
         
     def transcribe(self,**kwargs):
